@@ -163,7 +163,7 @@ pub fn run(
             );
             continue;
         }
-        let mut rd = |s: &Vec<Option<f32>>, i: usize, r: &mut ShadowResult| {
+        let rd = |s: &Vec<Option<f32>>, i: usize, r: &mut ShadowResult| {
             match s.get(i).copied().flatten() {
                 Some(v) => v,
                 None => {
